@@ -294,14 +294,26 @@ fn rand_radial(rng: &mut Rng, n: usize) -> Vec<bool> {
     }
 }
 
-/// `mode`: "quick" or "thorough"; `count` random graphs of at most `maxn` nodes
+/// `mode`: "quick", "rest" or "exh4:k/m"; `count` random graphs of at most `maxn` nodes
 pub fn run(seed: u64, count: usize, maxn: usize, mode: &str, out: &mut impl Write) {
     let _ = log::set_logger(&STEPLOG);
     log::set_max_level(log::LevelFilter::Info);
     let mut rng = Rng::new(seed ^ 0xE55);
     let pools = (1..=16).map(|t| rayon::ThreadPoolBuilder::new().num_threads(t).build().unwrap()).collect();
     let mut r = Runner { pools, id: 0 };
-    let thorough = mode == "thorough";
+    // modes: "quick"; "rest" (thorough tier without the 4-node digraphs); "exh4:k/m" (the
+    // 4-node digraphs whose code is k modulo m, thorough tier)
+    if let Some(spec) = mode.strip_prefix("exh4:") {
+        let (k, m) = spec.split_once('/').unwrap();
+        let (k, m): (u64, u64) = (k.parse().unwrap(), m.parse().unwrap());
+        for code in (0..1u64 << 16).filter(|c| c % m == k) {
+            let g = digraph_of_code(4, code);
+            r.grid(out, &mut rng, "exh4", &g, false, 1, false);
+            for _ in 0..2 { let rad = rand_radial(&mut rng, 4); r.explicit(out, &mut rng, "exh4", &g, &rad, false); }
+        }
+        return;
+    }
+    let thorough = mode == "rest";
     // exhaustive: all digraphs on <= 3 nodes (loops included)
     for n in 1..=3usize {
         for code in 0..(1u64 << (n * n)) {
@@ -313,12 +325,13 @@ pub fn run(seed: u64, count: usize, maxn: usize, mode: &str, out: &mut impl Writ
             }
         }
     }
-    // all digraphs on 4 nodes: thorough tier; a sample in the quick tier
-    let n4: Vec<u64> = if thorough { (0..1u64 << 16).collect() } else { (0..400).map(|_| rng.next() & 0xFFFF).collect() };
-    for code in n4 {
-        let g = digraph_of_code(4, code);
-        r.grid(out, &mut rng, "exh4", &g, false, 1, false);
-        for _ in 0..2 { let rad = rand_radial(&mut rng, 4); r.explicit(out, &mut rng, "exh4", &g, &rad, false); }
+    // a sample of the digraphs on 4 nodes (all of them: modes exh4:k/m)
+    if !thorough {
+        for _ in 0..400 {
+            let g = digraph_of_code(4, rng.next() & 0xFFFF);
+            r.grid(out, &mut rng, "exh4", &g, false, 1, false);
+            for _ in 0..2 { let rad = rand_radial(&mut rng, 4); r.explicit(out, &mut rng, "exh4", &g, &rad, false); }
+        }
     }
     // a sample of digraphs on 5 nodes
     for _ in 0..(if thorough { 20000 } else { 300 }) {
